@@ -238,21 +238,37 @@ bool File::copy(const String& src, const String& destination, bool failIfExists)
       return false;
     }
     off64_t size = lseek(fd, 0, SEEK_END);
-    if(size < 0)
+    if(size < 0 || lseek(fd, 0, SEEK_SET) < 0)
+    {
+      ::close(fd);
       return false;
-    if(lseek(fd, 0, SEEK_SET) < 0)
-      return false;
-    int dest = ::open(destination, failIfExists ? (O_CREAT | O_EXCL | O_CLOEXEC | O_TRUNC | O_WRONLY) : (O_CREAT | O_CLOEXEC | O_TRUNC | O_WRONLY), S_IRUSR | S_IWUSR | S_IRGRP | S_IROTH);
+    }
+    bool created = true; // so that a failed copy does not leave a new (partial) file behind
+    int dest = ::open(destination, O_CREAT | O_EXCL | O_CLOEXEC | O_WRONLY, S_IRUSR | S_IWUSR | S_IRGRP | S_IROTH);
+    if(dest == -1 && errno == EEXIST && !failIfExists)
+    {
+      created = false;
+      dest = ::open(destination, O_CREAT | O_CLOEXEC | O_TRUNC | O_WRONLY, S_IRUSR | S_IWUSR | S_IRGRP | S_IROTH);
+    }
     if(dest == -1)
     {
       ::close(fd);
       return false;
     }
-    if(sendfile(dest, fd, 0, size) != size)
-    {
-      ::close(fd);
-      ::close(dest);
-      return false;
+    for(off64_t done = 0; done < size;)
+    { // sendfile transfers at most 0x7ffff000 bytes per call and may be interrupted
+      ssize_t sent = sendfile(dest, fd, 0, (size_t)(size - done));
+      if(sent <= 0)
+      {
+        int err = errno;
+        ::close(fd);
+        ::close(dest);
+        if(created)
+          ::unlink(destination);
+        errno = err;
+        return false;
+      }
+      done += sent;
     }
     ::close(fd);
     ::close(dest);
